@@ -133,6 +133,61 @@ def my_mutate_tree(rng, t, kind):
     return kind, t
 
 
+UNION_KINDS = ["u_attr", "u_text_only", "u_empty", "u_swap", "u_xsi_type", "u_nil", "u_extra_child", "u_drop_child", "u_corrupt_leaf",
+               "u_tail", "u_dup"]
+
+
+def union_fault_stream(rng, tree, union_qnames, per_kind=1):
+    """faults aimed at the elements a UnionNode binds (their qnames are given): the content
+    decides which candidate wins, so every way of changing it is tried on every such element"""
+    base_paths = [p for p, n in G.tree_paths(tree) if n["q"] in union_qnames]
+    if not base_paths:
+        return
+    def put(n, k, v):
+        for kv in n["a"]:
+            if kv[0] == k:
+                kv[1] = v
+                return
+        n["a"].append([k, v])
+
+    for _ in range(per_kind):
+        for kind in UNION_KINDS:
+            t = copy.deepcopy(tree)
+            path = rng.choice(base_paths)
+            node = G.tree_at(t, path)
+            others = [G.tree_at(t, p) for p in base_paths if p != path]
+            if kind == "u_attr":
+                put(node, rng.choice(["zzz", "{urn:a}zz", "id"]), rng.choice(["v", "", "1"]))
+            elif kind == "u_text_only":
+                node["c"], node["t"] = [], rng.choice(["12", "true", "abc", "", " 7 ", "0", "false", None, "1.5", "x y"])
+                if rng.random() < 0.6:
+                    node["a"] = []
+            elif kind == "u_empty":
+                node["c"], node["t"], node["a"] = [], None, []
+            elif kind == "u_swap" and others:
+                o = rng.choice(others)
+                node["c"], node["t"], node["a"] = copy.deepcopy(o["c"]), o["t"], copy.deepcopy(o["a"])
+            elif kind == "u_xsi_type":
+                put(node, "{%s}type" % XSI, rng.choice(["Leaf0", "Leaf1", "Mid0", "Root", "Leaf0Ext", "xs:int", "zz:T", "", "{urn:a}Leaf0"]))
+            elif kind == "u_nil":
+                put(node, "{%s}nil" % XSI, rng.choice(["true", "false"]))
+            elif kind == "u_extra_child":
+                node["c"].insert(rng.randint(0, len(node["c"])), copy.deepcopy(rng.choice(G.UNKNOWN_SUBTREES)))
+            elif kind == "u_drop_child" and node["c"]:
+                del node["c"][rng.randrange(len(node["c"]))]
+            elif kind == "u_corrupt_leaf":
+                leaves = [n for _, n in G.tree_paths(node) if not n["c"]]
+                rng.choice(leaves)["t"] = rng.choice(["zzz", "", "12x", "truee", None, "1 2", "7"])
+            elif kind == "u_tail" and path:
+                node["tl"] = rng.choice(["tail", " ", "7"])
+            elif kind == "u_dup" and path:
+                parent = G.tree_at(t, path[:-1])
+                parent["c"].insert(path[-1], copy.deepcopy(node))
+            else:
+                continue
+            yield kind, t
+
+
 def tree_fault_stream(rng, tree, per_kind=1):
     """every fault kind (the shared ones of bindgen.mutate_tree and the ones above) on one document"""
     shared = ["inject", "inject_known", "unknown_attr", "xsi_attr", "delete", "duplicate", "retag", "reorder", "corrupt_text",
@@ -353,6 +408,108 @@ def tokenizer_outcome(data: bytes):
     if t is None:
         return "syntax"
     return {"tree": t}
+
+
+# ----------------------------------------------------------------------------- xinclude
+XI_NS = "http://www.w3.org/2001/XInclude"
+
+
+def xinclude_split(rng, xml: bytes):
+    """Cut one non-root element out of the document into a file of its own and leave an
+    `xi:include` in its place.  Returns (main bytes, {file name: bytes}, path of the cut) or None."""
+    from lxml import etree
+
+    root = etree.fromstring(xml)
+    els = [e for e in root.iter() if e is not root and isinstance(e.tag, str)]
+    if not els:
+        return None
+    el = rng.choice(els)
+    tail, el.tail = el.tail, None
+    inc = etree.tostring(el)
+    parent = el.getparent()
+    ref = etree.Element("{%s}include" % XI_NS, nsmap={"xi": XI_NS})
+    ref.set("href", "part.xml")
+    ref.tail = tail
+    parent.replace(el, ref)
+    return etree.tostring(root), {"part.xml": inc}
+
+
+def xinclude_fault_stream(rng, main: bytes, files: dict):
+    """(kind, main, files, expected tokenizer outcome or None=take the expanded tree)"""
+    part = files["part.xml"]
+    yield "valid", main, files, None
+    yield "bad_parse_attr", main.replace(b'href="part.xml"', b'href="part.xml" parse="zzz"'), files, "include"
+    yield "no_href", main.replace(b' href="part.xml"', b""), files, "include"
+    yield "self_loop", main.replace(b'href="part.xml"', b'href="main.xml"'), files, "include"
+    cut = rng.randrange(1, max(2, len(part)))
+    yield "part_truncated", main, {"part.xml": part[:cut]}, "syntax"
+    yield "part_unknown_encoding", main, {"part.xml": b'<?xml version="1.0" encoding="UTF78"?>' + part}, {"raised": "LookupError"}
+    yield "part_multibyte_encoding", main, {"part.xml": b'<?xml version="1.0" encoding="utf-7"?>' + part}, {"raised": "ValueError"}
+    yield "main_multibyte_encoding", b'<?xml version="1.0" encoding="shift_jis"?>' + main, files, {"raised": "ValueError"}
+    yield "part_garbage", main, {"part.xml": bytes(rng.randrange(256) for _ in range(12))}, "syntax"
+    yield "main_truncated", main[: rng.randrange(1, len(main))], files, "syntax"
+    yield "main_unknown_encoding", b'<?xml version="1.0" encoding="UTF78"?>' + main, files, {"raised": "LookupError"}
+    yield "text_include", main.replace(b'href="part.xml"', b'href="part.xml" parse="text"'), files, None
+
+
+def expanded_tree(main: bytes, files: dict):
+    """the document after inclusion, by libxml2's own XInclude (independent of xsdata)"""
+    import os
+    import tempfile
+
+    from lxml import etree
+
+    d = tempfile.mkdtemp(prefix="c15xi")
+    try:
+        for k, v in files.items():
+            open(os.path.join(d, k), "wb").write(v)
+        mp = os.path.join(d, "main.xml")
+        open(mp, "wb").write(main)
+        try:
+            tree = etree.parse(mp, etree.XMLParser(recover=False, no_network=True, load_dtd=False))
+            tree.xinclude()
+        except (etree.XMLSyntaxError, etree.XIncludeError, OSError):
+            return None
+        return _walk(tree.getroot())
+    finally:
+        import shutil
+
+        shutil.rmtree(d, ignore_errors=True)
+
+
+def real_xinclude(uni, clazz, main: bytes, files: dict, handler: str, config: dict):
+    """XmlParser(config=process_xinclude).from_bytes on the real code, with the parts on disk"""
+    import os
+    import shutil
+    import tempfile
+
+    from xsdata.exceptions import ConverterWarning
+    from xsdata.formats.dataclass.context import XmlContext
+    from xsdata.formats.dataclass.parsers import XmlParser
+    from xsdata.formats.dataclass.parsers.config import ParserConfig
+    from xsdata.formats.dataclass.parsers.handlers import LxmlEventHandler, XmlEventHandler
+
+    d = tempfile.mkdtemp(prefix="c15xi")
+    try:
+        for k, v in files.items():
+            open(os.path.join(d, k), "wb").write(v)
+        mp = os.path.join(d, "main.xml")
+        open(mp, "wb").write(main)
+        h = XmlEventHandler if handler == "native" else LxmlEventHandler
+        p = XmlParser(context=XmlContext(models_package=uni.modname), handler=h,
+                      config=ParserConfig(process_xinclude=True, base_url=mp, **config))
+        try:
+            with time_cap(CAP_S), warnings.catch_warnings(record=True) as w:
+                warnings.simplefilter("always")
+                obj = p.from_bytes(main, uni.classes[clazz])
+        except Hang:
+            return {"err": "HANG"}
+        except BaseException as e:  # noqa: BLE001
+            return B.classify_exc(e) if isinstance(e, Exception) else {"err": "LEAK:" + type(e).__name__}
+        n = sum(1 for x in w if issubclass(x.category, ConverterWarning))
+        return {"ok": {"value": uni.to_val(obj), "warnings": n}}
+    finally:
+        shutil.rmtree(d, ignore_errors=True)
 
 
 # ----------------------------------------------------------------------------- real adapters
